@@ -76,6 +76,9 @@ const LOOPED: &[&str] = &[
     // a dot followed by something that is not a property, an else without a block
     "stdout = 1;", "len(a) = 1;", "null = 1;", "$0 = 1;", "[1] = 2;", "if x > 1 { 1 } else { 2 } = 3;", "x.true;", "x.null;", "x.if x > 1 { 1 } else { 2 };",
     "if x > 1 { 1 } else 2;", "g(1) = 2;", "NP = 1;",
+    // container literals whose size differs from the number of elements written (repeated keys, keys equal across kinds), and empty ones
+    "map {1: 1, 1: 2};", "map {i % 2: 1, 0: 2, 1: 3};", "map {\"a\": i, \"b\": i, \"a\": i};", "map {1: 1, 1.0: 2, 2: 3};", "map {[1]: 1, [1.0]: 2};", "map {};", "[];",
+    "let m = map {x: 1, 1: 2}; m[1];", "g(map {0.0: 1, -0.0: 2});",
     "while false { 1; }", "loop { break; }", "let w = 0; while w < 2 { w = w + 1; if w == 1 { continue; } 1 + 2; }",
 ];
 
